@@ -349,6 +349,8 @@ pub fn strategy(p: &crate::gen::GenProfile) -> impl proptest::strategy::Strategy
         drop_range: 4,
         clear: 2,
         scan: 0,
+        iter_open: 0,
+        iter_step: 0,
     };
     (crate::gen::case(p), crate::gen::op(&tp)).prop_map(|(mut c, mut t)| {
         if let Op::Ingest { pre_writes, .. } = &mut t {
